@@ -60,6 +60,10 @@ pub mod parser;
 #[cfg(feature = "async")]
 pub mod async_io;
 
+/// Verification-only scheduling hooks (see `/verif`), absent from normal builds.
+#[cfg(fastcgi_server_verif)]
+pub mod verif;
+
 
 /// The central configuration for [`fastcgi_server`](crate).
 #[derive(Debug, Clone, PartialEq, Eq)]
